@@ -91,6 +91,17 @@ class Method(AbstractTaskNetwork):
             for n, t in _parameters.items():
                 self._parameters[n] = Parameter(n, t, self._env)
 
+    def clone(self):
+        new_params = OrderedDict(
+            (param_name, param.type) for param_name, param in self._parameters.items()
+        )
+        new_method = Method(self._name, new_params, self._env)
+        new_method._task = self._task
+        new_method._preconditions = self._preconditions[:]
+        new_method._subtasks = self._subtasks[:]
+        new_method._constraints = self._constraints[:]
+        return new_method
+
     def __repr__(self) -> str:
         s = []
         s.append(f"method {self.name}")
